@@ -20,7 +20,7 @@ mkdir -p "$work/corpus" "$work/artifacts"
 if [ "$target" = fuzz_text ]; then cp "$here"/corpus/* "$work/corpus/" 2>/dev/null; fi
 bin="$here/harness/fuzz/target/x86_64-unknown-linux-gnu/release/$target"
 t0=$(date +%s)
-( cd "$work" && VERIF_ORACLES="$oracles" "$bin" "$work/corpus" -runs="$runs" -seed="$seed" -jobs="$jobs" -workers="$jobs" \
+( cd "$work" && VERIF_NO_XPROC=1 VERIF_ORACLES="$oracles" "$bin" "$work/corpus" -runs="$runs" -seed="$seed" -jobs="$jobs" -workers="$jobs" \
     -dict="$here/dict/aidl.dict" -len_control=0 -max_len=4096 -timeout=60 -rss_limit_mb=4096 \
     -artifact_prefix="$work/artifacts/" -print_final_stats=1 > "$work/driver.log" 2>&1 )
 t1=$(date +%s)
